@@ -35,6 +35,11 @@ func versioningAlphabet(keys []string, c13 bool, rich bool) func(m *sx.Model, st
 			ops = append(ops, sx.Op{Kind: "Put", B: "bka", K: k, Body: "a"})
 			ops = append(ops, sx.Op{Kind: "Put", B: "bka", K: k, Body: "b"})
 			ops = append(ops, sx.Op{Kind: "Delete", B: "bka", K: k})
+			if rich || c13 {
+				// conditional writes take other code paths in the metadata store
+				ops = append(ops, sx.Op{Kind: "Put", B: "bka", K: k, Body: "b", Opt: map[string]string{"ifm": "cur"}})
+				ops = append(ops, sx.Op{Kind: "Put", B: "bka", K: k, Body: "a", Opt: map[string]string{"ifnm": "*"}})
+			}
 			if rich {
 				ops = append(ops, sx.Op{Kind: "Append", B: "bka", K: k, Body: "x"})
 				ops = append(ops, sx.Op{Kind: "Mpu", B: "bka", K: k, Parts: []string{"a", "b"}})
